@@ -34,7 +34,7 @@ type c01Op struct {
 }
 
 func c01() {
-	R := vr.New("C01", "history", "seeded operation histories (add/update/set-admin/remove/failed ops/default switch/set removal) over 3-6 users on stores with 4 parameter sets; after every step the whole observable state is compared with a sequential reference model and near-miss passwords are probed. Non-trivial: a history with >=2 users, >=1 successful update and >=1 failed operation; distinct by operation sequence hash")
+	R := vr.New("C01", "history", "seeded operation histories (add/update/set-admin/remove/failed ops incl. add/update failing half-way because <base>/.tmp is not a directory/default switch/set removal) over 3-6 users on stores with 4 parameter sets; after every step the whole observable state is compared with a sequential reference model and near-miss passwords are probed. Non-trivial: a history with >=2 users, >=1 successful update and >=1 failed operation; distinct by operation sequence hash")
 	defer R.Write()
 	nh := vr.Pick(150, 1200)
 	nops := vr.Pick(25, 40)
@@ -179,7 +179,33 @@ func c01History(R *vr.Result, rng *rand.Rand, id, dir string, nops int) {
 			}
 			hist = append(hist, op)
 			m.exists = false
-		case k < 93: // switch default
+		case k < 90: // add / update that fails half-way: <base>/.tmp is not a directory while the call runs
+			pw := ref.Password(rng)
+			tmp := filepath.Join(base, ".tmp")
+			os.RemoveAll(tmp)                          //nolint:errcheck
+			os.WriteFile(tmp, []byte("decoy\n"), 0600) //nolint:errcheck
+			var err error
+			if rng.Intn(3) == 0 {
+				adm := rng.Intn(2) == 0
+				op = c01Op{Op: "add-obstructed", User: u, Pw: vr.Q(string(pw)), Adm: adm}
+				if p := vr.Safe(func() { err = d.AddUser(u, string(pw), adm) }); p != "" {
+					viol("c01:panic:add", "AddUser panicked: "+p)
+				}
+			} else {
+				op = c01Op{Op: "update-obstructed", User: u, Pw: vr.Q(string(pw))}
+				if p := vr.Safe(func() { err = d.UpdateUser(u, string(pw)) }); p != "" {
+					viol("c01:panic:update", "UpdateUser panicked: "+p)
+				}
+			}
+			os.Remove(tmp) //nolint:errcheck
+			op.Res = errStr(err)
+			hist = append(hist, op)
+			if err == nil {
+				viol("c01:op-result:"+op.Op+":want-err=true", fmt.Sprintf("%s(%q) succeeded although no temporary file can be created", op.Op, u))
+			}
+			nFail++
+			R.Count("obstructed_ops", 1)
+		case k < 95: // switch default
 			var cand []uint
 			for i := range active {
 				if active[i] {
